@@ -537,7 +537,7 @@ func init() {
 		ID: "C09", Level: "exploration",
 		Rule: "per case one rule set with pairwise distinct saliences (unique result), built from GRL / reloaded from GRB / rule-per-resource, every fourth library with a removed rule: (iv) instance creation must succeed and the instance's canonical AST equal the blueprint's; (iii) reflection+unsafe walker over everything reachable from blueprint and two instances (all node fields incl. memo flags, the five working-memory maps): no AST node address shared, and the identity-keyed content of blueprint and instance B unchanged while instance A executes, has a rule retracted and a rule removed; (i)+(ii) 8-32 goroutines x 3-8 iterations (10-40 thorough) each create an instance, execute on their own different facts, sometimes remove a rule on their own instance, execute again, with yields inside harness methods, GOMAXPROCS rotating over {1,2,4,16}, race-detector build; every result (final facts, fired sequence, error class) must equal the sequential result; non-trivial = distinct cases whose isolation walk ran, plus distinct cases in which >=2 goroutines' instance lifetimes overlapped (from the shared stamp counter); the concurrent phase works on a second library built the same way (first instances of a blueprint are created concurrently), every other case executes all goroutines through ONE engine object; afterwards a rule is removed from the library and further instances must be created and behave like the remaining rules; every rule set carries two rules matching one string against different patterns",
 		Assume: []string{"samples schedules, does not enumerate them", "the race detector only sees accesses the workload performs", "sharing of immutable data (strings) is not an alarm"},
-		Cases:  tierN(60, 1500),
+		Cases:  tierN(60, 400),
 		Serial: true,
 		Run:    runC09Case,
 		Finish: raceFinish,
